@@ -461,6 +461,12 @@ func (exec *Executor) procExecAddBlock(msg *queue.Message) {
 					}
 
 					if kv != nil && kv.KV != nil {
+						//代理执行的真实交易同样需要检查localdb key的前缀(与procExecDelBlock, execLocalTx保持一致)
+						err = execute.checkPrefix(realTx.Execer, kv.KV)
+						if err != nil {
+							msg.Reply(exec.client.NewMessage("", types.EventAddBlock, err))
+							return
+						}
 						kvset.KV = append(kvset.KV, kv.KV...)
 					}
 				}
